@@ -5,6 +5,7 @@ from __future__ import annotations
 import ast
 
 from ..core import AnalysisError, Check, Scope, norm, strip_docstring, walk_no_nested
+from ..interp import Sym, SymInterp
 from ..variants import Variant
 
 SCIPY = "integrators/int_scipy.py"
@@ -118,16 +119,25 @@ class C15(Check):
     def z2(self) -> None:
         sim = self.prog.module(SIM)
         f = sim.func("Simulator.simulate_to_steady_state")
+        want = "self._handle_simulation_results(self.integrator.integrate_to_steady_state(tolerance=tolerance, rel_norm=rel_norm"
+        paths = [st for st, _ in SymInterp().run_function(f, Sym()).returns]
+        live = [st for st in paths if not any(c == "len(self._errors) > 0" and p for c, p in st.conds)]
         calls = [c for c in ast.walk(f) if isinstance(c, ast.Call) and norm(c.func) == "self._handle_simulation_results"]
-        if calls and calls[0].args and norm(calls[0].args[0]).startswith("self.integrator.integrate_to_steady_state(tolerance=tolerance, rel_norm=rel_norm"):
-            self.holds("Z2", SIM, "Simulator.simulate_to_steady_state", "result-to-handler", calls[0], "the integrator's Result is handed to the handler unchanged; tolerance and rel_norm forwarded")
+        if live and all(any(e[0] == "call" and e[1].startswith(want) for e in st.events) for st in live):
+            self.holds("Z2", SIM, "Simulator.simulate_to_steady_state", "result-to-handler", calls[0] if calls else f, "the integrator's Result is handed to the handler unchanged; tolerance and rel_norm forwarded")
         else:
             self.violated("Z2", SIM, "Simulator.simulate_to_steady_state", "result-to-handler", f, "the integrator's result is not passed (with tolerance / rel_norm) to the result handler")
         h = sim.func("Simulator._handle_simulation_results")
-        m = [s for s in strip_docstring(h.body) if isinstance(s, ast.Match)]
-        fail = [c for c in m[0].cases if isinstance(c.pattern, ast.MatchAs)] if m else []
-        if fail and [norm(b) for b in fail[0].body] == [f"self._errors.append({fail[0].pattern.name})"] and norm(m[0].subject) == "result.value":
-            self.holds("Z2", SIM, "Simulator._handle_simulation_results", "failure-recorded", fail[0].body[0], "every non-TimeCourse value is appended to _errors")
+        hp = [st for st, _ in SymInterp().run_function(h, Sym()).returns]
+        tc = "isinstance(result.value, TimeCourse)"
+        fails = [st for st in hp if any(c == tc and not p for c, p in st.conds)]
+        succ = [st for st in hp if any(c == tc and p for c, p in st.conds)]
+        if not fails or not succ or len(fails) + len(succ) != len(hp):
+            raise AnalysisError("Simulator._handle_simulation_results: success / failure paths not recognised")
+        ok = all([e for e in st.events if e[0] in ("call", "set", "store")] == [("call", "self._errors.append(result.value)")] for st in fails)
+        node = [c for c in ast.walk(h) if isinstance(c, ast.Call) and norm(c.func) == "self._errors.append"]
+        if ok:
+            self.holds("Z2", SIM, "Simulator._handle_simulation_results", "failure-recorded", node[0] if node else h, "every non-TimeCourse value is appended to _errors (and nothing else is stored)")
         else:
             self.violated("Z2", SIM, "Simulator._handle_simulation_results", "failure-recorded", h, "a failure value is not recorded in _errors",
                           witness="NoSteadyState is dropped: get_result() reports IntegrationFailure or an older frame")
